@@ -59,6 +59,9 @@ def GetAuthenticationContextClassReference (c : Claims) := c.acr
 def GetAccessTokenHash (c : Claims) := c.atHash
 def GetSignatureAlgorithm (c : Claims) := c.sigAlg
 def SetSignatureAlgorithm (c : Claims) (alg : String) : Claims := { c with sigAlg := alg }
+-- direct field access as in `oidc.JWTTokenRequest`
+def Issuer (c : Claims) := c.iss
+def Subject (c : Claims) := c.sub
 end Claims
 
 /-- A payload: the bytes (identified symbolically) and what `json.Unmarshal` makes of them. -/
@@ -106,7 +109,7 @@ structure Token where
   deriving DecidableEq, Repr, Inhabited
 
 /-- key set implementations -/
-inductive KeySetKind | static | published | jwtProfile
+inductive KeySetKind | static | published | jwtProfile | nilSet
   deriving DecidableEq, Repr, Inhabited
 
 structure KeySet where
@@ -125,11 +128,33 @@ structure Verifier where
   KeySet : KeySet := {}
   Nonce : Option String := none      -- result of the configured nonce function (none: no function)
 
+/-- result of `op.VerifyIDTokenHint`: claims, possibly together with an expiry-related error -/
+inductive HintOut
+  | valid (c : Claims)
+  | expired (c : Claims) (err : String)
+  deriving Repr
+
+/-- `op.JWTProfileVerifier`; `Storage` = the client-key registry (client id, key) behind
+    `GetKeyByIDAndClientID`; `CheckSubject = none` is the constructor default `SubjectIsIssuer`. -/
+structure JWTProfileVerifier where
+  Issuer : String := ""
+  MaxAgeIAT : Int := 0
+  Offset : Int := 0
+  CheckSubject : Option (Claims → Go.R Unit) := none
+  keySet : KeySet := { kind := .nilSet }
+  Storage : List (String × JWK) := []
+
 namespace Go
+class HasNil (α : Type) where
+  nilv : α
+instance {α : Type} : HasNil (List α) := ⟨[]⟩
+instance {α : Type} : HasNil (Option α) := ⟨none⟩
+def nil {α : Type} [HasNil α] : α := HasNil.nilv
 class Nilable (α : Type) where
   isNil : α → Bool
 instance {α : Type} : Nilable (Option α) := ⟨Option.isNone⟩
 instance {α : Type} : Nilable (List α) := ⟨List.isEmpty⟩
+instance : Nilable KeySet := ⟨fun k => k.kind == .nilSet⟩
 def isNil {α : Type} [Nilable α] (x : α) : Bool := Nilable.isNil x
 def notNil {α : Type} [Nilable α] (x : α) : Bool := !Nilable.isNil x
 def getOpt {α : Type} [Inhabited α] (x : Option α) : α := x.getD default
@@ -162,6 +187,16 @@ def joseParseSigned (t : Token) (allowed : List String) : Go.R JWS :=
   | some j =>
     if j.Signatures.all (fun s => allowed.contains s.Header.Algorithm) then .ok j
     else .error "go-jose/go-jose: unexpected signature algorithm"
+
+/-- `&jwtProfileKeySet{storage, clientID}`: the keys the storage holds for that client -/
+def jwtProfileKeySet (storage : List (String × JWK)) (clientID : String) : KeySet :=
+  { kind := .jwtProfile, keys := (storage.filter (·.1 == clientID)).map (·.2) }
+
+/-- `v.CheckSubject(request)` with the constructor default made explicit -/
+def applySubjectCheck (dflt : Claims → Go.R Unit) (f : Option (Claims → Go.R Unit)) (c : Claims) : Go.R Unit :=
+  match f with
+  | none => dflt c
+  | some g => g c
 
 /-- does key type fit the algorithm family (go-jose's own check, mirrored by `algToKeyType`) -/
 def algFits (kty : KeyType) (alg : String) : Bool :=
